@@ -354,7 +354,7 @@ func main() {
 			continue
 		}
 		xrun.Explore(r, name, xrun.Opts{Kind: "loop", Bound: ev.Pick(r, 2, 3), Budget: 30, Recycle: 4,
-			Param: loopworld.Cfg{Native: native, Remote2: true, TwoRemotes: true, MaxVisits: 1, AppOps: []string{"put-b", "del-a"}}})
+			Param: loopworld.Cfg{Native: native, Remote2: true, NoopRemote: true, TwoRemotes: true, MaxVisits: 1, AppOps: []string{"put-b", "del-a"}}})
 	}
 	r.Finish()
 }
